@@ -213,7 +213,7 @@ impl M {
 }
 
 fn seed_world() -> World {
-    let cfg = WorldCfg { encrypt_handshake: true, ..Default::default() };
+    let cfg = WorldCfg { encrypt_handshake: true, padding: 1, ..Default::default() };
     let mut w = World::new(cfg, 3);
     let r = w.run(|w| {
         w.create(0)?;
